@@ -2299,6 +2299,10 @@ func (s *Server) releaseConcurrency() {
 
 var errHijacked = errors.New("connection has been hijacked")
 
+// rejectedConnDeadline bounds the time spent on answering a connection that
+// is not going to be served (503, 429) before it is closed.
+const rejectedConnDeadline = time.Second
+
 // GetCurrentConcurrency returns a number of currently served
 // connections.
 //
@@ -3202,6 +3206,13 @@ func (s *Server) getServerName() string {
 }
 
 func (s *Server) writeFastError(w io.Writer, statusCode int, msg string) {
+	if c, ok := w.(net.Conn); ok {
+		// The connection is being turned away, usually by the accept loop
+		// itself: never wait for this peer. On a TLS connection the first
+		// Write runs the handshake, and a client that sends nothing would
+		// otherwise stop the server from accepting anybody else.
+		c.SetDeadline(time.Now().Add(rejectedConnDeadline)) //nolint:errcheck
+	}
 	w.Write(formatStatusLine(nil, strHTTP11, statusCode, s2b(StatusMessage(statusCode)))) //nolint:errcheck
 
 	server := s.getServerName()
